@@ -476,11 +476,14 @@ if mode in ('remove-release', 'remove-fail'):
         lk.release() if mode == 'remove-release' else lk.fail()
     except Exception as e:
         print('RELEASE_RAISED', type(e).__name__, flush=True)
-    time.sleep(0.7)          # far less than the (scaled) time to the helper's next refresh, which was a moment ago
-    try:
-        alive = os.path.exists('/proc/%%d' %% pid) and 'Z' not in open('/proc/%%d/stat' %% pid).read().split()[2]
-    except OSError:
-        alive = False
+    # the helper must be gone well before its next refresh (scaled: 3 s of real time, and the last one was a moment ago): poll for at most 1.5 s of REAL time
+    t1 = time.time()
+    alive = True
+    while alive and time.time() - t1 < 1.5:
+        try:
+            alive = os.path.exists('/proc/%%d' %% pid) and 'Z' not in open('/proc/%%d/stat' %% pid).read().split()[2]
+        except OSError:
+            alive = False
     print('HELPER_ALIVE_AFTER_RELEASE', alive, flush=True)
 elif mode == 'release':
     lk.release()
